@@ -275,6 +275,58 @@ func c10Idle(r *core.Run) {
 			zeroGuard = true
 		}
 	})
+	// a key without a local access record is NOT idle: on the ErrKeyNotFound edge of
+	// GetLastAccess the function answers false, and every other answer lies on the other edge.
+	// (The quorum read asks this for the winner of every read; during a hand-over or after a
+	// failover the owner's own fragment may not hold the key the winner came from.)
+	unknownNotIdle := false
+	for _, b := range f.Blocks {
+		if len(b.Instrs) == 0 {
+			continue
+		}
+		ifi, ok := b.Instrs[len(b.Instrs)-1].(*ssa.If)
+		if !ok {
+			continue
+		}
+		cv, neg := core.StripNot(ifi.Cond)
+		call, ok := cv.(*ssa.Call)
+		if !ok || !callTo("errors.Is")(call) || len(call.Call.Args) != 2 {
+			continue
+		}
+		ex, isEx := call.Call.Args[0].(*ssa.Extract)
+		if !isEx {
+			continue
+		}
+		g, isCall := ex.Tuple.(*ssa.Call)
+		if !isCall || !engineCall("GetLastAccess")(g) || !core.IsGlobalLoad(call.Call.Args[1], "pkg/storage", "ErrKeyNotFound") {
+			continue
+		}
+		res, decided := core.BoolResult(f, b, 0, map[ssa.Value]bool{cv: true})
+		_ = neg
+		if !decided || res {
+			continue
+		}
+		// every return that is not the constant false is dominated by the other edge
+		otherIdx := 1
+		if neg {
+			otherIdx = 0
+		}
+		all := true
+		for _, ret := range core.Returns(f) {
+			if k, isK := core.ResultValue(ret, 0).(*ssa.Const); isK && k.Value != nil && k.Value.String() == "false" {
+				continue
+			}
+			if !core.EdgeDominates(b, otherIdx, ret.Block()) {
+				all = false
+			}
+		}
+		if all {
+			unknownNotIdle = true
+		}
+	}
+	r.Check(unknownNotIdle, "idle-boundary", fnIdleFrag+" unknown access time", site(r, f.Pos()),
+		"a key without a local access record is not idle (false on the ErrKeyNotFound edge of GetLastAccess, every other answer behind the other edge)",
+		"a key without a local access record is reported idle: the quorum read drops the winner of a read whenever the owner's own fragment does not hold the key (hand-over in progress, failover) and answers key-not-found for an acknowledged key")
 	r.Check(okExpr, "idle-boundary", fnIdleFrag+" deadline", site(r, f.Pos()),
 		"idle iff isKeyExpired((MaxIdleDuration + lastAccess) / 1e6)", "the idle deadline is not lastAccess + MaxIdleDuration in milliseconds evaluated by the shared expiry test")
 	r.Check(zeroGuard, "idle-boundary", fnIdleFrag+" disabled when 0", site(r, f.Pos()), "MaxIdleDuration == 0 disables idle eviction", "with MaxIdleDuration == 0 keys are still evicted as idle")
